@@ -32,6 +32,22 @@ Theorem C04_tap_equals_standard :
     tap_forward d tw (map (map (fun i => nth i X d)) ids) p = forward d w (map (map (fun i => nth i X d)) ids) p.
 Proof. exact @tap_equals_standard. Qed.
 
+(* reverse (transpose) exchange with addition over a commutative ring: a node-aware package accepted by the
+   symbolic reverse check (tap_rev_ok, evaluated by the extracted checker on every dumped package) produces in
+   every owner entry the same value as a standard package accepted by rev_ok: initial value plus the sum of the
+   contributions of exactly the slots whose column-map entry is that entry's global id. *)
+Theorem C04_tap_reverse_equals_standard :
+  forall (F : Type) (zero one : F) (add mul sub : F -> F -> F) (opp : F -> F),
+  ring_theory zero one add mul sub opp (@eq F) ->
+  forall (tw : tap_world) (w : world) (ids colmaps : list (list nat)) (ys : list (list F)) (init : list F) q i,
+  tap_rev_ok tw ids colmaps = true -> rev_ok w ids colmaps = true ->
+  q < length (t_ranks tw) -> length w = length (t_ranks tw) ->
+  map (@length F) ys = map (@length nat) colmaps ->
+  length init = length (nth q ids []) -> i < length init ->
+  nth i (tap_reverse zero add zero add tw ys init q) zero = nth i (reverse add w ys init q) zero.
+Proof. intros F zero one add mul sub opp Fth. exact (tap_reverse_equals_standard F zero one add mul sub opp Fth). Qed.
+
 Print Assumptions C04_tap_forward_natural.
 Print Assumptions C04_tap_forward_delivers_owner_values.
 Print Assumptions C04_tap_equals_standard.
+Print Assumptions C04_tap_reverse_equals_standard.
